@@ -3,18 +3,21 @@
    Full statement aimed at (DESIGN.md C28): for every operation of StorageVec, StorageMap, StorageBytes and
    StorageString, `abs (step s op) = spec_step (abs s) op` with equal outputs, and an operation on one
    field / key leaves `abs` of every other field / key unchanged, under the hypotheses on sha256 below.
-   Proved here: StorageVec<u64> (every method except store_vec / load_vec / iter), StorageMap with a
-   one-word value type (insert / get / remove / try_insert), the footprint of every StorageMap operation
-   for any value type, and the frame theorems between vector fields and map entries.  NOT proved
-   (validated by the executed histories only): StorageBytes / StorageString, store_vec / load_vec,
-   map values of several words, vectors of multi-word elements — hence the `_partial` names.
+   Proved here: StorageVec<u64> and StorageVec<V> for V of w words (every method except store_vec / load_vec /
+   iter; elements may straddle slot boundaries), StorageMap with a value type of w words (insert / get /
+   remove / try_insert) and the footprint of every map operation, StorageBytes / StorageString (write_slice,
+   read_slice, len, and both resolutions of `clear`), the word-level behaviour of read_quads / write_quads at
+   any offset, and frame in every direction between vector fields, bytes/string fields and map entries.
+   NOT proved (validated by the executed histories only): store_vec / load_vec / iter, struct-typed plain
+   storage fields (OCell) beyond the word-level read_quads / write_quads theorems.  The `_partial` names of
+   the first theorems are kept (their statements exclude store_vec / load_vec).
 
    Hypotheses on the hash H (sha256), named in every theorem that needs them:
      injective on the occurring pre-images `occ`; distinct occurring digests at least CAP = 2^58 slots
      apart (a vector of up to LMAX = 2^60 u64 elements spans at most CAP slots); every occurring digest
      at least CAP below 2^256. *)
 From SwayV Require Import Base.Util Generated.C28Facts C28.Model C28.Step C28.Spec C28.StoreLemmas C28.ApiLemmas
-  C28.ListN C28.VecProofs C28.Frame C28.MapProofs C28.HashFrame C28.QuadLemmas C28.ListG C28.VecWProofs C28.MapWProofs C28.HashFrameW.
+  C28.ListN C28.VecProofs C28.Frame C28.MapProofs C28.HashFrame C28.QuadLemmas C28.ListG C28.VecWProofs C28.MapWProofs C28.HashFrameW C28.BytesProofs C28.HashFrameB.
 Open Scope N_scope.
 
 (* storage_api.sw slot arithmetic: a u64 at word offset `off` of `slot` lives in slot + off/4, word off mod 4 *)
@@ -242,6 +245,62 @@ Theorem C28_frame_vecw : forall (H : list N -> N) (occ : list N -> Prop),
 Proof. exact frame_vecw. Qed.
 Print Assumptions C28_frame_vecw.
 
+(* ---------- StorageBytes / StorageString ---------- *)
+(* write_slice / read_slice / len / StorableSlice::clear (BClear) / StorageKey::clear (BClearKey) refine the
+   byte-string model (empty content reads as None); bytes written must be < 256 and fewer than LMAX *)
+Theorem C28_bytes_refines : forall (H : list N -> N) (f : N),
+  f < W256 -> hash_b256 H f + CAP <= W256 -> f < hash_b256 H f \/ hash_b256 H f + CAP <= f ->
+  forall s o, abs_len s f < LMAX -> bop_ok o ->
+  let '(b', out) := spec_bytes (abs_bytes H s f) o in
+  exists s' mo, bytes_step H s f o = Ok (s', mo) /\ abs_bytes H s' f = b' /\ abs_len s' f < LMAX
+                /\ (forall so, out = Some so -> mo = so) /\ outside H f s s'.
+Proof. exact bytes_refines. Qed.
+Print Assumptions C28_bytes_refines.
+
+Theorem C28_bytes_refines_hash : forall (H : list N -> N) (occ : list N -> Prop),
+  (forall p q, occ p -> occ q -> H p = H q -> p = q) ->
+  (forall p q, occ p -> occ q -> H p <> H q -> H p + CAP <= H q \/ H q + CAP <= H p) ->
+  (forall p, occ p -> H p + CAP <= W256) ->
+  forall name s o,
+  vec_occ H occ name ->
+  let f := field_id H name in
+  abs_len s f < LMAX -> bop_ok o ->
+  let '(b', out) := spec_bytes (abs_bytes H s f) o in
+  exists s' mo, bytes_step H s f o = Ok (s', mo) /\ abs_bytes H s' f = b' /\ abs_len s' f < LMAX
+                /\ (forall so, out = Some so -> mo = so) /\ outside H f s s'.
+Proof. exact bytes_refines_hash. Qed.
+Print Assumptions C28_bytes_refines_hash.
+
+(* frame: whatever is confined to field `name` (a vector or bytes/string operation: their `outside`
+   footprints; C28_frame_vec_vec / C28_frame_vec_map / C28_frame_vecw take the same premise) leaves the
+   byte string of another field unchanged *)
+Theorem C28_frame_bytes : forall (H : list N -> N) (occ : list N -> Prop),
+  (forall p q, occ p -> occ q -> H p = H q -> p = q) ->
+  (forall p q, occ p -> occ q -> H p <> H q -> H p + CAP <= H q \/ H q + CAP <= H p) ->
+  (forall p, occ p -> H p + CAP <= W256) ->
+  forall name name2 s s',
+  vec_occ H occ name -> vec_occ H occ name2 -> name <> name2 ->
+  outside H (field_id H name) s s' ->
+  abs_len s (field_id H name2) < LMAX ->
+  abs_len s' (field_id H name2) = abs_len s (field_id H name2)
+  /\ abs_bytes H s' (field_id H name2) = abs_bytes H s (field_id H name2).
+Proof. exact frame_bytes. Qed.
+Print Assumptions C28_frame_bytes.
+
+(* frame: a map operation (any value type) leaves every bytes / string field unchanged *)
+Theorem C28_frame_map_bytes : forall (H : list N -> N) (occ : list N -> Prop),
+  (forall p q, occ p -> occ q -> H p = H q -> p = q) ->
+  (forall p q, occ p -> occ q -> H p <> H q -> H p + CAP <= H q \/ H q + CAP <= H p) ->
+  (forall p, occ p -> H p + CAP <= W256) ->
+  forall name2 w isref s f o s' out,
+  vec_occ H occ name2 -> occ (map_preimage (mop_key o) f) -> N.of_nat w <= CAP -> mop_width_ok w o ->
+  map_step H w isref s f o = Ok (s', out) ->
+  abs_len s (field_id H name2) < LMAX ->
+  abs_len s' (field_id H name2) = abs_len s (field_id H name2)
+  /\ abs_bytes H s' (field_id H name2) = abs_bytes H s (field_id H name2).
+Proof. exact map_frame_bytes. Qed.
+Print Assumptions C28_frame_map_bytes.
+
 (* Non-vacuity.  A toy hash that places the pre-image [b0; ...] at (b0 + 2) * 2^200: hypotheses of
    C28_vec_refines_partial hold for field 5, and a concrete history behaves as stated. *)
 Definition toyH (p : list N) : N := (hd 0 p + 2) * 2 ^ 200.
@@ -273,6 +332,17 @@ Example C28_example_vecw :
           [WPush [1;2;3]; WPush [4;5;6]; WPush [7;8;9]; WSet 1 [40;50;60]; WRemove 0] (Ok ([], [])) with
   | Ok (s, out) => out = [1;2;3] /\ abs_vecw toyH 3 s 5 = [[40;50;60]; [7;8;9]]
                    /\ vecw_step toyH 3 s 5 (WGet 1) = Ok (s, [1;7;8;9])
+  | _ => False
+  end.
+Proof. vm_compute. repeat split; reflexivity. Qed.
+(* 33 bytes occupy two content slots; both clear resolutions give the empty string, only StorableSlice::clear
+   unsets the content slots *)
+Example C28_example_bytes :
+  let bs := map N.of_nat (seq 1 33) in
+  match bytes_step toyH [] 5 (BWrite bs) with
+  | Ok (s, _) => abs_bytes toyH s 5 = bs /\ length s = 3%nat
+      /\ match bytes_step toyH s 5 BClearKey with Ok (s1, o1) => abs_bytes toyH s1 5 = [] /\ length s1 = 2%nat /\ o1 = [1] | _ => False end
+      /\ match bytes_step toyH s 5 BClear with Ok (s2, o2) => abs_bytes toyH s2 5 = [] /\ length s2 = 0%nat /\ o2 = [1] | _ => False end
   | _ => False
   end.
 Proof. vm_compute. repeat split; reflexivity. Qed.
